@@ -52,7 +52,7 @@ class Package:
 class Module:
     def __init__(self, pkg, relpath, tree):
         self.pkg, self.relpath, self.tree = pkg, relpath, tree
-        self.funcs, self.classes, self.imports, self.generators = {}, {}, {}, set()
+        self.funcs, self.classes, self.imports, self.generators, self.mutables = {}, {}, {}, set(), set()
         for n in tree.body:
             if isinstance(n, ast.FunctionDef):
                 self.funcs[n.name] = n
@@ -71,10 +71,16 @@ class Module:
                 for a in n.names:
                     self.imports[a.asname or a.name] = (target, a.name)
             elif isinstance(n, (ast.Assign, ast.AnnAssign)) and n.value is not None:
-                if any(_is_random_chain(x) for x in ast.walk(n.value)):
-                    for t in (n.targets if isinstance(n, ast.Assign) else [n.target]):
-                        if isinstance(t, ast.Name):
+                for t in (n.targets if isinstance(n, ast.Assign) else [n.target]):
+                    if isinstance(t, ast.Name):
+                        if any(_is_random_chain(x) for x in ast.walk(n.value)):
                             self.generators.add(t.id)
+                        elif not _immutable_expr(n.value):
+                            self.mutables.add(t.id)
+        # a module-level mutable object is SHARED STATE when some function of the module mutates it in place, rebinds it
+        # through `global`, or lets it escape un-copied (x = NAME, self.a = NAME, return NAME, NAME[a:b]); read-only tables
+        # (REFERENCE_MAGNETIC_VECTOR, MAG ...) are constants.  Every access to a shared object is a Glob atom.
+        self.generators |= _shared_mutables(tree, self.mutables)
 
     def resolve(self, name):
         """name used in this module -> (Module, FunctionDef|ClassDef) or None"""
@@ -103,6 +109,100 @@ def _is_random_chain(n):
 
 def _mutable_default(d):
     return isinstance(d, (ast.List, ast.Dict, ast.Set, ast.Call, ast.ListComp, ast.DictComp))
+
+
+def _immutable_expr(e):
+    if isinstance(e, (ast.Constant, ast.Name, ast.JoinedStr)):
+        return True
+    if isinstance(e, ast.Attribute):
+        return _immutable_expr(e.value)
+    if isinstance(e, ast.UnaryOp):
+        return _immutable_expr(e.operand)
+    if isinstance(e, ast.BinOp):
+        return _immutable_expr(e.left) and _immutable_expr(e.right)
+    if isinstance(e, ast.Tuple):
+        return all(_immutable_expr(x) for x in e.elts)
+    if isinstance(e, ast.Call) and isinstance(e.func, ast.Name) and e.func.id in ('float', 'int', 'str', 'bool', 'tuple', 'frozenset', 'complex'):
+        return True
+    return False
+
+
+MUTATORS = {'append', 'extend', 'insert', 'pop', 'remove', 'clear', 'reverse', 'sort', 'update', 'setdefault', 'popitem', 'add', 'discard',
+            'fill', 'put', 'resize', 'itemset', 'partition', 'setfield', 'setflags', 'byteswap'}
+NP_INPLACE_FIRST = {'copyto', 'put', 'place', 'putmask', 'fill_diagonal', 'put_along_axis'}
+VIEW_FUNCS = {'asarray', 'asanyarray', 'atleast_1d', 'atleast_2d', 'atleast_3d', 'squeeze', 'ravel', 'reshape', 'transpose', 'ascontiguousarray',
+              'asfarray', 'swapaxes', 'moveaxis', 'broadcast_to', 'expand_dims', 'flip', 'real', 'diagonal'}
+VIEW_METHODS = {'reshape', 'view', 'ravel', 'squeeze', 'transpose', 'swapaxes', 'diagonal', '__array__'}
+
+
+def _base_name(t):
+    while isinstance(t, (ast.Subscript, ast.Attribute)):
+        t = t.value
+    return t.id if isinstance(t, ast.Name) else None
+
+
+def _shared_mutables(tree, mutables):
+    shared = set()
+    if not mutables:
+        return shared
+    for fn in ast.walk(tree):
+        if not isinstance(fn, (ast.FunctionDef, ast.Lambda)):
+            continue
+        for n in ast.walk(fn):
+            if isinstance(n, ast.Global):
+                shared |= set(n.names) & mutables
+            elif isinstance(n, ast.AugAssign):
+                b = _base_name(n.target)
+                if b in mutables:
+                    shared.add(b)
+            elif isinstance(n, (ast.Assign, ast.AnnAssign, ast.Delete)):
+                for t in (n.targets if not isinstance(n, ast.AnnAssign) else [n.target]):
+                    if isinstance(t, (ast.Subscript, ast.Attribute)) and _base_name(t) in mutables:
+                        shared.add(_base_name(t))
+                v = getattr(n, 'value', None)
+                for x in _bare(v):
+                    if x in mutables:
+                        shared.add(x)
+            elif isinstance(n, ast.Return):
+                for x in _bare(n.value):
+                    if x in mutables:
+                        shared.add(x)
+            elif isinstance(n, ast.Call):
+                f = n.func
+                if isinstance(f, ast.Attribute) and f.attr in MUTATORS and _base_name(f.value) in mutables:
+                    shared.add(_base_name(f.value))
+                if isinstance(f, ast.Attribute) and f.attr in NP_INPLACE_FIRST and n.args and _base_name(n.args[0]) in mutables:
+                    shared.add(_base_name(n.args[0]))
+                for k in n.keywords:
+                    if k.arg == 'out' and _base_name(k.value) in mutables:
+                        shared.add(_base_name(k.value))
+    return shared
+
+
+def _bare(v):
+    """names a value expression may be an un-copied alias of"""
+    if v is None:
+        return []
+    if isinstance(v, ast.Name):
+        return [v.id]
+    if isinstance(v, ast.IfExp):
+        return _bare(v.body) + _bare(v.orelse)
+    if isinstance(v, ast.BoolOp):
+        return [x for e in v.values for x in _bare(e)]
+    if isinstance(v, ast.Subscript) and isinstance(v.slice, ast.Slice):
+        return _bare(v.value)
+    if isinstance(v, ast.Attribute) and v.attr == 'T':
+        return _bare(v.value)
+    if isinstance(v, ast.Call):
+        f = v.func
+        if isinstance(f, ast.Attribute) and f.attr in VIEW_FUNCS and v.args and not any(k.arg == 'copy' for k in v.keywords):
+            return _bare(v.args[0])
+        if isinstance(f, ast.Attribute) and f.attr in VIEW_METHODS:
+            return _bare(f.value)
+        if isinstance(f, ast.Attribute) and f.attr == 'array' and v.args and any(
+                k.arg == 'copy' and isinstance(k.value, ast.Constant) and k.value.value is False for k in v.keywords):
+            return _bare(v.args[0])
+    return []
 
 
 # ------------------------------------------------------------------------------------------ command trees
@@ -207,7 +307,7 @@ class Extractor:
                 out.add('np.random')
             elif isinstance(n, ast.Global):
                 out |= {f'module:{x}' for x in n.names}
-            elif isinstance(n, ast.Name) and isinstance(n.ctx, ast.Load) and n.id in mod.generators:
+            elif isinstance(n, ast.Name) and n.id in mod.generators:
                 out.add(f'module:{n.id}')
             elif isinstance(n, ast.Call):
                 f = n.func
@@ -271,7 +371,7 @@ class Extractor:
         if _self_attr(e):
             return [('Rd', e.attr)]
         if isinstance(e, ast.Name):
-            if isinstance(e.ctx, ast.Load) and e.id in self.mod.generators:
+            if e.id in self.mod.generators:
                 return [('Glob', f'module:{e.id}')]
             return []
         if isinstance(e, (ast.ListComp, ast.SetComp, ast.GeneratorExp, ast.DictComp)):
@@ -309,6 +409,8 @@ class Extractor:
             return out
         if isinstance(t, ast.Starred):
             return self.target(t.value, ltypes, aug)
+        if isinstance(t, ast.Name):
+            return [('Glob', f'module:{t.id}')] if t.id in self.mod.generators else []
         if isinstance(t, (ast.Subscript, ast.Attribute)):
             # self.x[...] = v / self.x.y = v : in-place update of self.x
             base = t.value
@@ -386,8 +488,156 @@ class Extractor:
             return ('Rd', '*')                 # nested definitions: not analysed, fail closed
         return ('Rd', '*')                     # unknown statement kind: fail closed
 
+    # ---- which of its own parameters may a function update IN PLACE (directly, through a view/alias, or by handing the alias to a
+    #      package function / method / constructor that does)?  Flow-sensitive over statements, union at joins. ---------------------
+    def inplace_params(self, mod, fn, cls=None, depth=0):
+        key = ('ip', mod.relpath, (cls.name + '.' if cls is not None else '') + fn.name)
+        if key in self._glob_memo:
+            return self._glob_memo[key]
+        self._glob_memo[key] = set()
+        a = fn.args
+        params = [x for x in a.posonlyargs + a.args + a.kwonlyargs]
+        roots = {}
+        for x in params:
+            if x.arg in ('self', 'cls'):
+                continue
+            ann = x.annotation
+            if isinstance(ann, ast.Name) and ann.id in ('float', 'int', 'str', 'bool', 'complex'):
+                continue                                   # scalars: op= rebinds
+            roots[x.arg] = {x.arg}
+        mutated = set()
+        methods = {f.name: f for f in cls.body if isinstance(f, ast.FunctionDef)} if cls is not None else {}
+
+        def al(e, env):
+            out = set()
+            for nme in _bare(e):
+                out |= env.get(nme, set())
+            if isinstance(e, ast.Subscript) and not isinstance(e.slice, ast.Slice):
+                idx = e.slice
+                scalar = isinstance(idx, ast.Constant) or (isinstance(idx, ast.UnaryOp) and isinstance(idx.operand, ast.Constant))
+                if not scalar:
+                    out |= al(e.value, env)              # fancy / tuple / variable index: may be a view of a row
+            return out
+
+        def callee_params(call):
+            """(FunctionDef, offset of first real parameter, owning module, owning class) of a resolvable callee"""
+            f = call.func
+            if isinstance(f, ast.Name):
+                r = mod.resolve(f.id)
+                if r and isinstance(r[1], ast.FunctionDef):
+                    return r[1], r[0], None
+                if r and isinstance(r[1], ast.ClassDef):
+                    for nm in ('__init__', '__new__'):
+                        m = next((g for g in r[1].body if isinstance(g, ast.FunctionDef) and g.name == nm), None)
+                        if m is not None:
+                            return m, r[0], r[1]
+            if _self_attr(f) and f.attr in methods:
+                return methods[f.attr], mod, cls
+            return None
+
+        def scan_calls(node, env):
+            for c in ast.walk(node):
+                if not isinstance(c, ast.Call):
+                    continue
+                f = c.func
+                if isinstance(f, ast.Attribute) and f.attr in MUTATORS:
+                    mutated.update(al(f.value, env) if not _self_attr(f.value) else set())
+                if isinstance(f, ast.Attribute) and f.attr in NP_INPLACE_FIRST and c.args:
+                    mutated.update(al(c.args[0], env))
+                for k in c.keywords:
+                    if k.arg == 'out':
+                        mutated.update(al(k.value, env))
+                if depth < 5:
+                    cp = callee_params(c)
+                    if cp is not None:
+                        g, m2, c2 = cp
+                        bad = self.inplace_params(m2, g, c2, depth + 1)
+                        if bad:
+                            names = [x.arg for x in g.args.posonlyargs + g.args.args if x.arg not in ('self', 'cls')]
+                            for i, arg in enumerate(c.args):
+                                if i < len(names) and names[i] in bad:
+                                    mutated.update(al(arg, env))
+                            for k in c.keywords:
+                                if k.arg in bad:
+                                    mutated.update(al(k.value, env))
+
+        def merge(e1, e2):
+            return {k: set(e1.get(k, set())) | set(e2.get(k, set())) for k in set(e1) | set(e2)}
+
+        def assign(t, v, env):
+            if isinstance(t, ast.Name):
+                env[t.id] = al(v, env) if v is not None else set()
+            elif isinstance(t, (ast.Tuple, ast.List)):
+                if isinstance(v, (ast.Tuple, ast.List)) and len(v.elts) == len(t.elts):
+                    for x, y in zip(t.elts, v.elts):
+                        assign(x, y, env)
+                else:
+                    for x in t.elts:
+                        assign(x, None, env)           # unpacked elements of an array are scalars / fresh rows
+            elif isinstance(t, (ast.Subscript, ast.Attribute)):
+                b = t
+                while isinstance(b, (ast.Subscript, ast.Attribute)) and not _self_attr(b):
+                    b = b.value
+                if isinstance(b, ast.Name):
+                    mutated.update(env.get(b.id, set()))
+
+        def block(body, env):
+            for st in body:
+                if isinstance(st, (ast.FunctionDef, ast.ClassDef)):
+                    continue
+                if isinstance(st, ast.Assign):
+                    scan_calls(st.value, env)
+                    for t in st.targets:
+                        assign(t, st.value, env)
+                elif isinstance(st, ast.AnnAssign):
+                    if st.value is not None:
+                        scan_calls(st.value, env)
+                        assign(st.target, st.value, env)
+                elif isinstance(st, ast.AugAssign):
+                    scan_calls(st.value, env)
+                    b = st.target
+                    while isinstance(b, (ast.Subscript, ast.Attribute)) and not _self_attr(b):
+                        b = b.value
+                    if isinstance(b, ast.Name):
+                        mutated.update(env.get(b.id, set()))
+                elif isinstance(st, ast.If):
+                    scan_calls(st.test, env)
+                    e1, e2 = dict(env), dict(env)
+                    block(st.body, e1); block(st.orelse, e2)
+                    env.clear(); env.update(merge(e1, e2))
+                elif isinstance(st, (ast.For, ast.While)):
+                    scan_calls(st.iter if isinstance(st, ast.For) else st.test, env)
+                    for _ in range(2):
+                        e1 = dict(env)
+                        if isinstance(st, ast.For):
+                            assign(st.target, None, e1)
+                            for n in ast.walk(st.target):
+                                if isinstance(n, ast.Name):
+                                    e1[n.id] = al(st.iter, env)       # iterating an array yields views of its rows
+                        block(st.body, e1)
+                        env.update(merge(env, e1))
+                    block(st.orelse, env)
+                elif isinstance(st, ast.Try):
+                    block(st.body, env)
+                    for h in st.handlers:
+                        block(h.body, env)
+                    block(st.orelse, env); block(st.finalbody, env)
+                elif isinstance(st, ast.With):
+                    block(st.body, env)
+                elif isinstance(st, ast.Delete):
+                    for t in st.targets:
+                        if isinstance(t, ast.Subscript):
+                            assign(t, None, env)
+                else:
+                    scan_calls(st, env)
+
+        block(fn.body, roots)
+        out = {p for p in mutated}
+        self._glob_memo[key] = out
+        return out
+
     def method_cmd(self, fn):
-        pre = []
+        pre = [('Glob', f'arg:{fn.name}.{p}') for p in sorted(self.inplace_params(self.mod, fn, self.cls))]
         a = fn.args
         pos = a.posonlyargs + a.args
         for p, d in list(zip(pos[len(pos) - len(a.defaults):], a.defaults)) + [(p, d) for p, d in zip(a.kwonlyargs, a.kw_defaults) if d is not None]:
